@@ -130,7 +130,7 @@ def scen_quad(meth, cutoff_type, matsubara, T_zero):
         wc, T, tau = Real('cutoff'), Real('temperature'), Real('tau')
         ip.assume(z3.And(wc > 0, T == 0 if T_zero else T > 0))
         o = mkobj(repo, 'bath_correlations.CustomSD', cutoff=wc, cutoff_type=cutoff_type, temperature=T if not T_zero else z3.RealVal(0),
-                  _spectral_density=user_callable('J', raises=False))
+                  j_function=user_callable('j_raw', raises=False), _spectral_density=user_callable('J', raises=False))
         return {'args': [o, tau], 'kwargs': {'matsubara': matsubara}, 'meth': meth, 'ct': cutoff_type, 'mats': matsubara, 'T0': T_zero,
                 'wc': wc, 'inputs': {'cutoff_type': cutoff_type, 'matsubara': matsubara, 'T_zero': T_zero}}
     return scen
@@ -334,7 +334,8 @@ class KernelTarget:
                'paths': 1, 'obligations': [], 'undecided': [], 'errors': [], 'flags': ['REAL_FLOAT'], 'lib_pure': [],
                'lib_used': ['sympy: differentiation and simplification (trusted)'], 'functions_extra': []}
         fc = repo.resolve('bath_correlations.CustomSD.correlation')
-        fe = repo.resolve('bath_correlations.CustomSD.eta_function')
+        # the body of eta_function (the memoised kernel `_eta_function` where the public method only adds the memo key)
+        fe = repo.resolve('bath_correlations.CustomSD._eta_function') or repo.resolve('bath_correlations.CustomSD.eta_function')
         if fc is None or fe is None:
             res['undecided'].append('contract target missing: CustomSD.correlation / eta_function')
             return res
